@@ -222,6 +222,10 @@ def c09_rounds_violation(ents, split_after=True):
         where = {i: k for k, c in enumerate(b) for i in c}
         singles = {c[0] for c in b if len(c) == 1}
         for c in a:
+            lost = [i for i in c if i not in where]
+            if lost:
+                return (f"{len(lost)} members of a cluster of {na} ({len(c)} members, e.g. {lost[:6]}) are in no "
+                        f"cluster of {nb}: the cluster did not re-enter the next round")
             if len({where.get(i) for i in c}) > 1:
                 if nb != "final" and split_after and all(i in singles for i in c):
                     continue
@@ -707,6 +711,32 @@ def big_cluster_cases(rng):
     return out
 
 
+def suite_mr_big(seed, tier):
+    """workflows in which one cluster crosses a counter-width boundary at a hand-off between rounds (a family
+    of ~300 and one of more than 65535 equal rows: uint16 and uint32 buffer files); direct oracles only"""
+    r = Result("multiround-big")
+    for case in big_cluster_cases(random.Random(seed + 8)):
+        r.cases += 1
+        with tempfile.TemporaryDirectory(prefix="verif_mrbig_") as tmp:
+            tmp = Path(tmp)
+            (tmp / "in").mkdir()
+            (tmp / "out").mkdir()
+            try:
+                run_impl(case, tmp / "out", tmp / "in")
+                ents = read_dir(tmp / "out", case["nf"])
+                v = c05_violation(case, ents) or c09_rounds_violation(ents, case["cfg"]["split_after"])
+            except Exception as e:
+                v = f"the workflow failed: {type(e).__name__}: {e}"[:200]
+        if v:
+            small = {**case, "files": [[list(x) for x in f[:3]] + ["... %d rows" % len(f)] for f in case["files"]]}
+            r.bad.append({"suite": "multiround-big", "what": v, "big_cluster_seed": seed + 8,
+                          "group_size": max(len(f) for f in case["files"]), "case_summary": small})
+    r.nontrivial = r.cases
+    r.stats = {"cases": r.cases}
+    r.samples = [{"families": [300, "65536+"]}]
+    return r
+
+
 def search_mr(which):
     def search(seed, tier, failures):
         for kind, d in failures:
@@ -756,7 +786,8 @@ def replay_mr(which):
                         run_impl(case, tmp / "out", tmp / "in")
                     except Exception:
                         return False
-                    if c05_violation(case, read_dir(tmp / "out", case["nf"])):
+                    ents = read_dir(tmp / "out", case["nf"])
+                    if c05_violation(case, ents) or c09_rounds_violation(ents, case["cfg"]["split_after"]):
                         return False
             return True
         if not fi or "case" not in fi:
